@@ -156,12 +156,11 @@ TStep ==
                       IF o.k = "Steps" THEN o.steps ELSE -1,
                       IF o.n > HeaderBytes(c) /\ (o.n - HeaderBytes(c)) % BlockBytes(c) = 0
                       THEN (o.n - HeaderBytes(c)) \div BlockBytes(c) ELSE -1, o.n = tr.nbytes)
-            \* (when the size also fits the other variant the reader's marker
-            \* comparison may or may not reject it: content dependent, not modelled)
+            \* (size rule and marker comparison: CloudOpenM)
             /\ (tr.reader = "memmap" /\ c.fmt = "cloud_rain" /\ ~CloudAliased(c, o.n)) =>
                   ModelClause(tr, p, "prefix of " \o ToString(o.n) \o " bytes: outcome differs from the cloud/rain reader model",
                       IF o.k = "Steps" THEN o.steps ELSE -1,
-                      LET w == CloudOpenF(c, o.n) IN IF w.k = "Steps" THEN w.n ELSE -1, o.n = tr.nbytes)
+                      LET w == CloudOpenM(c, o.n) IN IF w.k = "Steps" THEN w.n ELSE -1, o.n = tr.nbytes)
             /\ (tr.reader = "memmap" /\ c.fmt = "lateral_boundary") =>
                   ModelClause(tr, p, "prefix of " \o ToString(o.n) \o " bytes: outcome differs from the lateral boundary reader model",
                       IF o.k = "Steps" THEN o.steps ELSE -1,
